@@ -529,6 +529,7 @@ func runC01(c *Ctx) {
 	checkElementsThroughCodec(r, p)
 	checkCountNotComparedWithBytes(r, p)
 	checkByteArrayPredicateMirror(r, p)
+	checkSettingsMergeMirror(r, p, pkgSerix)
 	checkTrustedHelpers(r, p, []trustedHelper{{Pkg: "serializer/byteutils", Name: "ConcatBytes"}})
 	// SerializableOrderedMap (and ds.Set on top of it) encodes what OrderedMap.ForEach visits and
 	// prefixes it with Size(): chain, dictionary and size of the OrderedMap stay coupled
@@ -1416,6 +1417,10 @@ func runC02(c *Ctx) {
 	}
 	r := c.R
 	checkErrorConstructorsNonNil(r, p)
+	// a decoder's failure branch reports the error it is the branch of (never another, known-nil one:
+	// the malformed input would be accepted)
+	checkFailureBranchReportsOwnError(r, p, pkgSerix)
+	checkFailureBranchReportsOwnError(r, p, pkgSer)
 	checkDeserializerBounds(r, p)
 	checkNoSizeDrivenAlloc(r, p)
 	checkInputSlicesBounded(r, p)
